@@ -56,7 +56,13 @@ func (f *If) Call(s *slip.Scope, args slip.List, depth int) (result slip.Object)
 	result = nil
 	d2 := depth + 1
 	pos := 0
-	test := firstValue(slip.EvalArg(s, args, pos, d2)) != nil
+	result = slip.EvalArg(s, args, pos, d2)
+	switch result.(type) {
+	case *slip.ReturnResult, *GoTo:
+		return result
+	}
+	test := firstValue(result) != nil
+	result = nil
 	pos++
 	if test {
 		result = slip.EvalArg(s, args, pos, d2)
